@@ -70,6 +70,16 @@ class Spec:
         """indexes of hex byte-string fields of the case that may be reduced"""
         return [i for i, f in enumerate(case) if i > 0 and len(f) >= 4 and re.fullmatch(r"(?:[0-9a-f]{2})+", f)]
 
+    def pregen(self, rundir):
+        """write property-specific regenerated Lean files (lean/SonicSpec/Generated/*.lean) from the
+        current tree before the Lean build; returns (ok, log).  Default: nothing to do."""
+        return True, ""
+
+    def shrink_candidates(self, case):
+        """structure-aware smaller variants of a failing case (list of case-field lists), tried before
+        the generic byte-level reduction of hex fields.  Default: none."""
+        return []
+
     def extra(self, ctx):
         """additional obligations beyond Lean + streams (e.g. fact comparisons); returns list of problems"""
         return []
@@ -194,6 +204,13 @@ class Run:
         while improved and time.time() < t_end:
             improved = False
             case = cur.split("\t")
+            cl = ["\t".join(c) for c in self.spec.shrink_candidates(case)][:600]
+            if cl:
+                bad = self.still_fails(vh, stream, cl, kind)
+                if bad:
+                    cur = cl[min(bad.keys(), key=lambda i: len(cl[i]))]
+                    improved = True
+                    continue
             for fi in self.spec.shrink_fields(case):
                 b = _hexbytes(case[fi])
                 n = len(b)
@@ -350,6 +367,12 @@ class Run:
                 self.cov["factx_ok"] = ok
                 if not ok:
                     self.problems.append({"what": "fact extraction failed (source shape not recognised)", "log": lg[-1500:]})
+            try:
+                pok, plog = spec.pregen(rd)
+            except Exception as e:
+                pok, plog = False, repr(e)
+            if not pok:
+                self.problems.append({"what": "property-specific fact extraction failed (source shape not recognised)", "log": (plog or "")[-1500:]})
             # 2. proof obligations
             words = core.forbidden_words()
             if words:
